@@ -37,14 +37,15 @@ type Scenario struct {
 
 // SchedOpts configure RunScenario.
 type SchedOpts struct {
-	Budget     time.Duration // per scenario, for the primary (DPOR) mode
-	Horizon    int
-	Fallback   []int // preemption bounds tried if DPOR does not finish
-	ForcePB    int   // >=0: skip DPOR and use this preemption bound (-1: DPOR)
-	SkipDPOR   bool  // go straight to the preemption bounds in Fallback
-	Wide       bool  // preemption-bounded search of this scenario is sliced over all worker processes
-	Deviations int   // bound for cost-bearing data choices (-1 unbounded)
-	MaxExec    int64
+	Budget        time.Duration // per scenario, for the primary (DPOR) mode
+	Horizon       int
+	Fallback      []int // preemption bounds tried if DPOR does not finish
+	ForcePB       int   // >=0: skip DPOR and use this preemption bound (-1: DPOR)
+	SkipDPOR      bool  // go straight to the preemption bounds in Fallback
+	NoReplayCheck bool  // skip the per-scenario determinism replays (bulk single-run scenarios do their own sampling)
+	Wide          bool  // preemption-bounded search of this scenario is sliced over all worker processes
+	Deviations    int   // bound for cost-bearing data choices (-1 unbounded)
+	MaxExec       int64
 }
 
 // ResetGlobals brings process-wide state of the packages under test back to
@@ -176,6 +177,12 @@ func RunScenario(ctx *Ctx, rep *Report, sc *Scenario, o SchedOpts) {
 			if !outcomes[outcome] {
 				outcomes[outcome] = true
 				rep.Distinct(sc.Name + "|" + outcome)
+			}
+			if first && o.NoReplayCheck {
+				first = false
+				if len(rep.Samples) < 3 {
+					rep.Sample(map[string]interface{}{"scenario": sc.Name, "params": sc.Params, "end": e.End.String(), "outcome": Short(outcome, 300)})
+				}
 			}
 			if first {
 				first = false
